@@ -84,6 +84,9 @@ type Lowerer struct {
 	topChain []*Contract
 	topEnss  []*Clause
 	topCt    *Contract
+	siteOrd map[string]int
+	backLabels map[string]bool
+	gotoLoops  map[string]*gotoLoop
 	specPos token.Pos // when set, spec identifiers resolve in the scope at this source position
 }
 
